@@ -403,7 +403,7 @@ theorem settle_quiet (cfg : Cfg) (hc : Repaired cfg) (p : Proc) (hp : NoIncl p) 
     split
     · rfl
     · split
-      all_goals first | rfl | (split <;> rw [selectFlows_quiet cfg hc.firstFlow])
+      all_goals first | rfl | (rw [nextTurn_causes, selectFlows_quiet cfg hc.firstFlow])
 
 theorem settleIncl_noIncl (cfg : Cfg) (p : Proc) (hp : NoIncl p) (s : St) (w : List Tok) :
     settleIncl cfg p s w = (none, s) := by
